@@ -1009,7 +1009,28 @@ def v_pow(x, e):
         if e.denominator == 1 and 0 <= e <= 4:
             return v_pow_int(x, int(e))
         x = collapse(x)
+    if e == Fraction(1, 2) or e == Fraction(-1, 2):
+        try:
+            return _s_pow(x, e)
+        except Undecided:
+            r = generic_sqrt(x)
+            return r if e > 0 else v_inv(r)
     return _s_pow(x, e)
+
+
+def generic_sqrt(x):
+    """sqrt of a value the structural rules cannot take apart: an atom r with r >= 0, r*r = x (used
+    for comparisons; products r*r are not rewritten)"""
+    C = CTX
+    if not hasattr(C, "gsq"):
+        C.gsq = []
+    for s, arg in C.gsq:
+        if v_equal(arg, x):
+            return Value({C.mono([(s, QU)]): 1})
+    s = C.sym("gsqrt%d" % len(C.gsq), "gsq")
+    C.gsq.append((s, x))
+    C.side.append(("radicand-nonnegative", len(C.gsq) - 1))
+    return Value({C.mono([(s, QU)]): 1})
 
 
 def v_exp(x):
@@ -1095,6 +1116,8 @@ def _s_evalv(v, env, F):
             r = F.num(p)
         elif kind == "rad":
             r = F.sqrt(evalp(C.factors[C.radf[s]]))
+        elif kind == "gsq":
+            r = F.sqrt(evalv([a for t, a in C.gsq if t == s][0], env, F))
         elif kind == "imag":
             r = F.imag()
         elif kind == "exp":
